@@ -191,6 +191,15 @@ func runWin(sc WinScenario) (evs []Ev, inconclusive string) {
 		if point == p+".trigdone" { // a completed trigger pass: processed watermark (ticks, rounded down)
 			return Ev{"tr": sc.Tr, "e": "pwm", "wm": floorDiv(a, sc.Cfg.Unit) - sc.Cfg.Base}
 		}
+		if !sc.Free && sc.Cfg.Kind == "session" {
+			// TraceSessionImpl: live sessions / fired sessions kept open, at the end of Add; sessions collected by a trigger pass
+			if point == p+".add" {
+				return Ev{"tr": sc.Tr, "e": "h.add", "n": a, "no": b}
+			}
+			if point == p+".fired" {
+				return Ev{"tr": sc.Tr, "e": "h.fired", "wm": floorDiv(a, sc.Cfg.Unit) - sc.Cfg.Base, "n": b}
+			}
+		}
 		if !sc.Free && sc.Cfg.Kind != "session" {
 			// the engine's own state at the model's steps (TraceTumblingImpl / TraceSlidingImpl): reported under the window lock
 			if point == p+".add" { // rows buffered, start of the current slot (ticks; -1: none yet), fired windows kept open for late rows
